@@ -89,3 +89,17 @@ Theorem C20_regenerated_noisy_evaluate_adds_the_noise_map_row_by_row : forall X 
   noisy_row L (nth k (Gen_extra.gen_pfd_evaluate X Y L xs false draws) []) (nth k draws []).
 Proof. exact ExtraRefine.gen_pfd_evaluate_noisy. Qed.
 Print Assumptions C20_regenerated_noisy_evaluate_adds_the_noise_map_row_by_row.
+
+(* the regenerated ContinuousProblem.evaluate: the true function row by row, plus the noise map when noisy *)
+From VOPy Require ExtraRefine2.
+From VOPyGen Require Gen_extra2.
+Theorem C20_regenerated_continuous_evaluate : forall (f : vec -> vec) L x draws,
+  Gen_extra2.gen_continuous_evaluate f L x false draws = map f x /\
+  (forall k, length draws = length x -> (k < length x)%nat ->
+      nth k (Gen_extra2.gen_continuous_evaluate f L x true draws) [] = noisy_row L (f (nth k x [])) (nth k draws [])).
+Proof.
+  intros f L x draws. split.
+  - exact (ExtraRefine2.gen_continuous_noiseless f L x draws).
+  - intros k Hd Hk. exact (ExtraRefine2.gen_continuous_noisy f L x draws k Hd Hk).
+Qed.
+Print Assumptions C20_regenerated_continuous_evaluate.
